@@ -403,6 +403,46 @@ class Function:
             return frozenset()
         return self.region_of_block(p[0])
 
+    def dominating_edges(self, b):
+        """Branch edges (block, succ index) whose condition is known at block b: the edge's target dominates b
+        and is entered only through that edge."""
+        out = []
+        for d in self.dom.get(b, ()):
+            preds = [p for p in self.blocks[d].preds if p in self.dom]
+            if len(preds) != 1:
+                continue
+            p = preds[0]
+            blk = self.blocks[p]
+            succs = [s for s in blk.succs if s >= 0]
+            if len(set(succs)) < 2:
+                continue
+            ixs = [ix for ix, s in enumerate(blk.succs) if s == d]
+            if len(ixs) == 1:
+                out.append((p, ixs[0]))
+        return out
+
+    def can_reach_forward(self, a, b):
+        """element a may be followed by element b without taking a loop back edge"""
+        pa, pb = self.cfg_pos(a), self.cfg_pos(b)
+        if pa is None or pb is None:
+            return False
+        if pa[0] == pb[0]:
+            return pa[1] < pb[1]
+        seen = set()
+        stack = [pa[0]]
+        while stack:
+            x = stack.pop()
+            for s in self.blocks[x].succs:
+                if s < 0 or s in seen:
+                    continue
+                if s in self.dom.get(x, ()):      # back edge
+                    continue
+                if s == pb[0]:
+                    return True
+                seen.add(s)
+                stack.append(s)
+        return False
+
     def branch_atom(self, bid):
         """The atomic condition expression whose value selects the successor of block bid."""
         blk = self.blocks[bid]
